@@ -44,4 +44,63 @@ theorem foldl_range_desc_getD2 {σ : Type} (f : σ → Int → Int → σ) (xs y
   have e2 : xs.length - 1 - k = ys.length - 1 - k := by omega
   rw [e2, getD_reverse_idx ys k (by omega)]
 
+/-! ### loop forms the translator emits -/
+
+/-- `for (i = 0; i < n && P i; ++i) s = f s i`: a fold with an `alive` flag -/
+def loopAlive {σ : Type} (n : Nat) (P : Nat → Prop) [DecidablePred P] (f : σ → Nat → σ) (s : σ) : σ :=
+  ((List.range n).foldl (fun (st : Bool × σ) k => if st.1 = true ∧ P k then (true, f st.2 k) else (false, st.2)) (true, s)).2
+
+theorem foldl_dead {σ : Type} (P : Nat → Prop) [DecidablePred P] (f : σ → Nat → σ) :
+    ∀ (l : List Nat) (s : σ),
+      l.foldl (fun (st : Bool × σ) k => if st.1 = true ∧ P k then (true, f st.2 k) else (false, st.2)) (false, s) = (false, s)
+  | [], _ => rfl
+  | k :: l, s => by simp only [List.foldl_cons]; simpa using foldl_dead P f l s
+
+theorem foldl_alive {σ : Type} (P : Nat → Prop) [DecidablePred P] (f : σ → Nat → σ) :
+    ∀ (l : List Nat) (s : σ),
+      (l.foldl (fun (st : Bool × σ) k => if st.1 = true ∧ P k then (true, f st.2 k) else (false, st.2)) (true, s)).2
+        = (l.takeWhile (fun k => decide (P k))).foldl f s
+  | [], _ => rfl
+  | k :: l, s => by
+      simp only [List.foldl_cons, List.takeWhile_cons, true_and]
+      by_cases h : P k
+      · simp only [h, if_true, decide_true, List.foldl_cons]
+        exact foldl_alive P f l (f s k)
+      · simp only [h, if_false, decide_false]
+        rw [foldl_dead P f l s]; simp
+
+/-- the loop stops at the first index where the extra test fails: it is the fold over the longest prefix satisfying it -/
+theorem loopAlive_eq {σ : Type} (n : Nat) (P : Nat → Prop) [DecidablePred P] (f : σ → Nat → σ) (s : σ) :
+    loopAlive n P f s = ((List.range n).takeWhile (fun k => decide (P k))).foldl f s :=
+  foldl_alive P f _ s
+
+theorem foldl_append_flatMap {α β : Type} (g : α → List β) : ∀ (l : List α) (a : List β),
+    l.foldl (fun acc k => acc ++ g k) a = a ++ l.flatMap g
+  | [], a => by simp
+  | k :: l, a => by simp [foldl_append_flatMap g l (a ++ g k)]
+
+/-- a flag that, once set, stays set and disables the body (`goto` out of the loops): `b || any` -/
+theorem foldl_sticky {α : Type} (F : Bool → α → Bool) (r : α → Bool) (h1 : ∀ k, F true k = true) (h0 : ∀ k, F false k = r k) :
+    ∀ (l : List α) (b : Bool), l.foldl F b = (b || l.any r)
+  | [], b => by simp
+  | k :: l, b => by
+      simp only [List.foldl_cons, List.any_cons]
+      rw [foldl_sticky F r h1 h0 l]
+      cases b <;> simp [h1, h0]
+
+/-- a guarded append per index = the filtered list, mapped -/
+theorem foldl_guarded_append {α β : Type} (c : α → Bool) (g : α → β) : ∀ (l : List α) (a : List β),
+    l.foldl (fun acc k => if ¬ (c k = true) then acc ++ [g k] else acc) a = a ++ (l.filter fun k => !c k).map g
+  | [], a => by simp
+  | k :: l, a => by
+      simp only [List.foldl_cons, List.filter_cons]
+      rw [foldl_guarded_append c g l]
+      cases h : c k <;> simp
+
+/-- a loop whose `goto` flag is never set -/
+theorem foldl_flag_false {A α : Type} (F : A × Bool → α → A × Bool) (g : A → α → A) (h : ∀ a k, F (a, false) k = (g a k, false)) :
+    ∀ (l : List α) (a : A), l.foldl F (a, false) = (l.foldl g a, false)
+  | [], _ => rfl
+  | k :: l, a => by simp only [List.foldl_cons, h]; exact foldl_flag_false F g h l _
+
 end Mahotas
